@@ -61,6 +61,7 @@ HIER = {
     'flat2': ({'main.suite': ([], ['c2.case', 'c1.case'])}, [('main.suite', ['c2.case', 'c1.case'])], 'main.suite'),
     'flat3': ({'main.suite': ([], ['c1.case', 'c2.case', 'c3.case'])}, [('main.suite', ['c1.case', 'c2.case', 'c3.case'])], 'main.suite'),
     'glob2': ({'main.suite': ([], ['*.case'])}, [('main.suite', ['a.case', 'b.case'])], 'main.suite'),
+    'glob3': ({'main.suite': ([], ['?.case', 'k*.case'])}, [('main.suite', ['a.case', 'c.case', 'k1.case'])], 'main.suite'),
     'glob-and-name': ({'main.suite': ([], ['z.case', 'sub/*.case'])}, [('main.suite', ['z.case', 'sub/a.case'])], 'main.suite'),
     'one-sub': ({'main.suite': (['sub/s.suite'], ['c1.case']), 'sub/s.suite': ([], ['x.case'])},
                 [('sub/s.suite', ['sub/x.case']), ('main.suite', ['c1.case'])], 'main.suite'),
@@ -99,7 +100,7 @@ def prepare(tier):
 def cases(tier):
     for h, (files, slots, arg) in HIER.items():
         n = sum(len(cs) for _, cs in slots)
-        if tier == 'quick' and n > 2 and h != 'flat3':
+        if tier == 'quick' and n > 2 and h not in ('flat3',):
             continue
         for assign in itertools.product(range(len(VERDICTS)), repeat=n):
             for rep in ('progress', 'junit'):
@@ -134,6 +135,17 @@ def run(case) -> Result:
     if case[0] == 'invalid':
         return _invalid(res, case, w, seam, mp)
     _, h, assign, rep = case
+    orders = ('reverse', 'forward') if 'glob' in h else ('reverse',)
+    for creation in orders:
+        w.reset()
+        seam.reset()
+        seam.default = {'exit': 0}
+        _run_one(res, case, w, seam, mp, creation)
+    return res
+
+
+def _run_one(res, case, w, seam, mp, creation):
+    _, h, assign, rep = case
     files, slots, arg = HIER[h]
     base = 'd/' if h == 'dir-arg' else ''
     for path, spec in files.items():
@@ -141,9 +153,12 @@ def run(case) -> Result:
     flat = [(s, c) for s, cs in slots for c in cs]
     verdict_of = {}
     for (s, c), vi in zip(flat, assign):
-        v = VERDICTS[vi]
-        verdict_of[c] = v
-        w.write(base + c, case_text(v, c))
+        verdict_of[c] = VERDICTS[vi]
+    # files are created in reverse order (and a decoy between them), so that directory order differs from the sorted order of glob matches
+    for (s, c) in (reversed(flat) if creation == 'reverse' else flat):
+        w.write(base + c, case_text(verdict_of[c], c))
+        if 'glob' in h:
+            w.write(base + os.path.dirname(c) + ('/' if os.path.dirname(c) else '') + 'zz-' + os.path.basename(c) + '.not-a-case', 'x')
     args = ['suite'] + (['--reporter', 'junit'] if rep == 'junit' else []) + [str(w.home / arg)]
     o = cli.run(args, mp=mp)
     errs = []
